@@ -707,6 +707,121 @@ def gen_ref_bins(repo):
     return "\n".join(out)
 
 
+
+# ------------------------------------------------------------------------------------------------------------------
+# C13: the boxcar width ladder (MatchedFilter.get_box_width_spacing) and the on-pulse extent (Template.get_on_pulse)
+# ------------------------------------------------------------------------------------------------------------------
+_CMP = {ast.Lt: "<?", ast.LtE: "<=?", ast.Gt: ">?", ast.GtE: ">=?"}
+
+
+def _zx(e, names):
+    """integer expression over the given names -> Gallina Z term.  `names` maps the unparsed source of a leaf to its Gallina name"""
+    src = ast.unparse(e)
+    if src in names:
+        return names[src]
+    if isinstance(e, ast.Constant) and isinstance(e.value, int) and not isinstance(e.value, bool):
+        return str(e.value) if e.value >= 0 else f"({e.value})"
+    if isinstance(e, ast.BinOp) and isinstance(e.op, (ast.Add, ast.Sub, ast.Mult)):
+        op = {ast.Add: "+", ast.Sub: "-", ast.Mult: "*"}[type(e.op)]
+        return f"({_zx(e.left, names)} {op} {_zx(e.right, names)})"
+    if isinstance(e, ast.Call) and isinstance(e.func, ast.Name) and e.func.id in ("max", "min") and len(e.args) == 2 and not e.keywords:
+        return f"(Z.{e.func.id} {_zx(e.args[0], names)} {_zx(e.args[1], names)})"
+    raise Unsupported("integer expression " + src[:80])
+
+
+def _zcmp(e, names):
+    if not (isinstance(e, ast.Compare) and len(e.ops) == 1 and type(e.ops[0]) in _CMP):
+        raise Unsupported("comparison " + ast.unparse(e)[:80])
+    return f"({_zx(e.left, names)} {_CMP[type(e.ops[0])]} {_zx(e.comparators[0], names)})"
+
+
+def gen_box_widths(repo):
+    """get_box_width_spacing with spacing_factor = sp / sq (sq > 0): int(max(I, spacing_factor * J)) = Z.max I (floor(sp * J / sq))
+    for integers I, J >= 0 (int() truncates, the argument is positive).  The while loop becomes a fuelled recursion on the last width"""
+    fn = _find_fn(repo, "sigpyproc/core/filters.py", "get_box_width_spacing", "MatchedFilter")
+    if [ast.unparse(d) for d in fn.decorator_list] != ["staticmethod"]:
+        raise Unsupported("get_box_width_spacing: decorators changed")
+    _params(fn, ["size_max", "spacing_factor"])
+    body = _strip_doc(fn.body)
+    if len(body) != 3 or not isinstance(body[1], ast.While) or body[1].orelse:
+        raise Unsupported("get_box_width_spacing: frame changed")
+    init = body[0]
+    if not (isinstance(init, ast.Assign) and ast.unparse(init.targets[0]) == "widths" and isinstance(init.value, ast.List)
+            and len(init.value.elts) == 1):
+        raise Unsupported("get_box_width_spacing: initial list: " + ast.unparse(init))
+    if ast.unparse(body[2]) != "return np.array(widths, dtype=np.float32)":
+        raise Unsupported("get_box_width_spacing: return changed: " + ast.unparse(body[2]))
+    names = {"widths[-1]": "last", "size_max": "size_max"}
+    first = _zx(init.value.elts[0], {})
+    wl = body[1]
+    test = _zcmp(wl.test, names)
+    if len(wl.body) != 3:
+        raise Unsupported("get_box_width_spacing: loop body changed")
+    a, brk, app = wl.body
+    if not (isinstance(a, ast.Assign) and ast.unparse(a.targets[0]) == "next_width" and isinstance(a.value, ast.Call)
+            and ast.unparse(a.value.func) == "int" and len(a.value.args) == 1 and not a.value.keywords):
+        raise Unsupported("get_box_width_spacing: next_width is no longer int(...): " + ast.unparse(a))
+    inner = a.value.args[0]
+    if not (isinstance(inner, ast.Call) and ast.unparse(inner.func) == "max" and len(inner.args) == 2 and not inner.keywords):
+        raise Unsupported("get_box_width_spacing: next_width is no longer int(max(., .)): " + ast.unparse(a))
+    ipart, rpart = inner.args
+    if not (isinstance(rpart, ast.BinOp) and isinstance(rpart.op, ast.Mult) and ast.unparse(rpart.left) == "spacing_factor"):
+        raise Unsupported("get_box_width_spacing: real operand is no longer spacing_factor * <int>: " + ast.unparse(rpart))
+    nxt = f"Z.max {_zx(ipart, names)} ((sp * {_zx(rpart.right, names)}) / sq)"
+    if not (isinstance(brk, ast.If) and not brk.orelse and len(brk.body) == 1 and isinstance(brk.body[0], ast.Break)):
+        raise Unsupported("get_box_width_spacing: break test changed")
+    stop = _zcmp(brk.test, dict(names, next_width="next_width"))
+    if ast.unparse(app) != "widths.append(next_width)":
+        raise Unsupported("get_box_width_spacing: append changed: " + ast.unparse(app))
+    return ("(* from MatchedFilter.get_box_width_spacing, spacing_factor = sp / sq: the widths after `last` (the while loop, fuelled) *)\n"
+            "Fixpoint box_widths_loop (fuel : nat) (size_max sp sq last : Z) : list Z :=\n"
+            "  match fuel with\n  | O => []\n  | S fuel' =>\n"
+            f"    if {test} then\n"
+            f"      let next_width := {nxt} in\n"
+            f"      if {stop} then [] else next_width :: box_widths_loop fuel' size_max sp sq next_width\n"
+            "    else []\n  end.\n"
+            "(* the loop runs at most size_max times: every pass appends a width that is larger than the last and <= size_max *)\n"
+            "Definition box_width_spacing_run (size_max sp sq : Z) : list Z :=\n"
+            f"  {first} :: box_widths_loop (Z.to_nat size_max) size_max sp sq {first}.\n")
+
+
+def gen_on_pulse(repo):
+    """Template.get_on_pulse / MatchedFilter.on_pulse; `rwidth` stands for round(self.width)"""
+    p = _find_fn(repo, "sigpyproc/core/filters.py", "on_pulse", "MatchedFilter")
+    if [ast.unparse(s) for s in _strip_doc(p.body)] != ["return self.best_temp.get_on_pulse(self.peak_bin, self.data.size)"]:
+        raise Unsupported("MatchedFilter.on_pulse changed")
+    fn = _find_fn(repo, "sigpyproc/core/filters.py", "get_on_pulse", "Template")
+    _params(fn, ["self", "peak_bin", "nbins"])
+    body = _strip_doc(fn.body)
+    if len(body) != 4 or not isinstance(body[0], ast.If) or ast.unparse(body[0].test) != "self.ref == 'start'":
+        raise Unsupported("get_on_pulse: frame changed")
+    names = {"peak_bin": "peak_bin", "nbins": "nbins", "self.width": "width", "round(self.width)": "rwidth"}
+
+    def branch(stmts):
+        got = {}
+        for st in stmts:
+            if not (isinstance(st, ast.Assign) and len(st.targets) == 1 and isinstance(st.targets[0], ast.Name)
+                    and st.targets[0].id in ("pulse_left", "pulse_right") and st.targets[0].id not in got):
+                raise Unsupported("get_on_pulse: branch statement " + ast.unparse(st)[:80])
+            got[st.targets[0].id] = _zx(st.value, names)
+        if set(got) != {"pulse_left", "pulse_right"}:
+            raise Unsupported("get_on_pulse: a branch does not set pulse_left and pulse_right")
+        return got
+    b1, b2 = branch(body[0].body), branch(body[0].orelse)
+    n2 = dict(names, pulse_left="pulse_left", pulse_right="pulse_right")
+    vals = {}
+    for st, nm in ((body[1], "start"), (body[2], "end")):
+        if not (isinstance(st, ast.Assign) and ast.unparse(st.targets[0]) == nm):
+            raise Unsupported(f"get_on_pulse: {nm} assignment changed: " + ast.unparse(st))
+        vals[nm] = _zx(st.value, n2)
+    if ast.unparse(body[3]) != "return (start, int(end))":
+        raise Unsupported("get_on_pulse: return changed: " + ast.unparse(body[3]))
+    return ("(* from Template.get_on_pulse (MatchedFilter.on_pulse = best_temp.get_on_pulse(peak_bin, data.size)); rwidth = round(width) *)\n"
+            "Definition on_pulse_run (ref_is_start : bool) (width rwidth peak_bin nbins : Z) : Z * Z :=\n"
+            f"  let '(pulse_left, pulse_right) := if ref_is_start then ({b1['pulse_left']}, {b1['pulse_right']}) else ({b2['pulse_left']}, {b2['pulse_right']}) in\n"
+            f"  let start := {vals['start']} in\n  let end_ := {vals['end']} in\n  (start, end_).\n")
+
+
 MF_VARS = """Variable Nm : norm_ops.                (* the non-ring operations of normalize_template, Model/C13_np.v *)
 Local Notation mean_of_sum := (nrm_mean_of_sum Nm).   (* np.mean: mean_of_sum n s = s / n *)
 Local Notation div_norm := (nrm_div_norm Nm).         (* div_norm x ss = x / sqrt ss, or x when sqrt ss = 0 *)
@@ -730,10 +845,66 @@ def gen_matchedfilter(repo="/repo"):
     except Unsupported as e:
         errors.append(f"template generators: {e}")
         out.append(f"(* UNSUPPORTED template generators: {str(e).replace('*)', '* )').replace('(*', '( *')} *)\n")
+    for name, g in (("get_box_width_spacing", gen_box_widths), ("get_on_pulse", gen_on_pulse)):
+        try:
+            out.append(g(repo))
+        except Unsupported as e:
+            errors.append(f"{name}: {e}")
+            out.append(f"(* UNSUPPORTED {name}: {str(e).replace('*)', '* )').replace('(*', '( *')} *)\n")
     return "\n".join(out) + "\n", errors
 
 
-GENERATORS = {"FftOps.v": gen_fftops, "MatchedFilter.v": gen_matchedfilter}
+
+def gen_mf_zscores(repo="/repo"):
+    """Gen/MatchedFilterZ.v: the standardised series MatchedFilter hands to the kernel, as the regenerated stats.estimate_zscore
+    (Gen/Stats.v, C15) applied the way MatchedFilter.__init__ applies it: 1-D data, the two method arguments passed on, axis left
+    at its default"""
+    errors = []
+    out = [HEADER % "sigpyproc/core/filters.py, sigpyproc/core/stats.py", "Require Import SPP.Model.C15_np SPP.Gen.Stats.", ""]
+    try:
+        rel = "sigpyproc/core/filters.py"
+        mod = ast.parse(open(f"{repo}/{rel}").read())
+        imp = [n for n in mod.body if isinstance(n, ast.ImportFrom) and n.module == "sigpyproc.core.stats"
+               and any(a.name == "estimate_zscore" and a.asname is None for a in n.names)]
+        if len(imp) != 1:
+            raise Unsupported("filters.py no longer imports estimate_zscore from sigpyproc.core.stats")
+        init = _find_fn(repo, rel, "__init__", "MatchedFilter")
+        names = [a.arg for a in init.args.args]
+        if names[:4] != ["self", "data", "loc_method", "scale_method"]:
+            raise Unsupported(f"MatchedFilter.__init__ parameters {names}")
+        body = [ast.unparse(st) for st in _strip_doc(init.body)]
+        want = ["if data.ndim != 1:\n    msg = f'Data dimension {data.ndim} is not supported.'\n    raise ValueError(msg)",
+                "self._temp_kind = temp_kind", "self._data = np.asarray(data, dtype=np.float32)",
+                "self._zscores = estimate_zscore(self.data, loc_method=loc_method, scale_method=scale_method)",
+                "self._setup_templates(nbins_max, spacing_factor)", "self._compute()"]
+        if body != want:
+            diff = [a for a, b in zip(body, want) if a != b] or body[len(want):] or ["(statements removed)"]
+            raise Unsupported("MatchedFilter.__init__ changed: " + diff[0][:200])
+        for prop, ret in (("data", "return self._data"), ("zscores", "return self._zscores")):
+            pf = _find_fn(repo, rel, prop, "MatchedFilter")
+            if [ast.unparse(st) for st in _strip_doc(pf.body)] != [ret]:
+                raise Unsupported(f"MatchedFilter.{prop} changed")
+        ez = _find_fn(repo, "sigpyproc/core/stats.py", "estimate_zscore")
+        _params(ez, ["data", "loc_method", "scale_method", "axis"])
+        dflt = ez.args.defaults[-1]
+        if isinstance(dflt, ast.Constant) and dflt.value is None:
+            axis = "None"
+        elif isinstance(dflt, ast.Constant) and isinstance(dflt.value, int) and not isinstance(dflt.value, bool):
+            axis = f"(Some ({dflt.value}))"
+        else:
+            raise Unsupported("estimate_zscore: default of axis: " + ast.unparse(dflt))
+        out.append("(* from MatchedFilter.__init__: self._zscores = estimate_zscore(self.data, loc_method=loc_method, scale_method=scale_method),\n"
+                   "   data 1-D (anything else raises), axis = the default of stats.estimate_zscore.  The float32 cast is not modelled *)\n"
+                   "Definition mf_zscores np_sqrt np_pi np_std1 biweight1 np_cov01 memo (data : nd) (loc_method_ : loc_method) (scale_method_ : scale_method) :=\n"
+                   f"  estimate_zscore np_sqrt np_pi np_std1 biweight1 np_cov01 memo data loc_method_ scale_method_ {axis}.\n"
+                   f"Definition mf_zscores_axis : option Z := {axis}.\n")
+    except Unsupported as e:
+        errors.append(f"MatchedFilter zscores: {e}")
+        out.append(f"(* UNSUPPORTED MatchedFilter zscores: {str(e).replace('*)', '* )').replace('(*', '( *')} *)\n")
+    return "\n".join(out) + "\n", errors
+
+
+GENERATORS = {"FftOps.v": gen_fftops, "MatchedFilter.v": gen_matchedfilter, "MatchedFilterZ.v": gen_mf_zscores}
 
 
 if __name__ == "__main__":
